@@ -140,6 +140,7 @@ func randomWorld(rng *rand.Rand, focus string) (worldCfg, *budget, probes) {
 	for i := 0; i < n; i++ {
 		cfg.Calls[i].DecodeFail = rng.IntN(10) == 0
 		cfg.Calls[i].DropFail = rng.IntN(5) == 0
+		cfg.Calls[i].EndByDeadline = rng.IntN(2) == 0
 		if !g.Send && rng.IntN(5) == 0 {
 			cfg.Calls[i].FailSendAt = rng.IntN(mr + 1)
 			cfg.Calls[i].FailKind = 1 + rng.IntN(3)
@@ -380,6 +381,48 @@ func c25Batch() (family, int) {
 	}}, len(cases)
 }
 
+// c25Parked: retransmission k is blocked inside the (gated) send when the
+// result / error / ack for the request arrives; another interval passes; the
+// send is released. With a cancel-aware transport the blocked write must be
+// aborted by the result and Do must return without waiting for the release.
+func c25Parked() (family, int) {
+	type cse struct {
+		mr, k  int
+		notif  string
+		honors bool
+		decode bool
+	}
+	var cases []cse
+	for mr := 2; mr <= 3; mr++ {
+		for k := 0; k <= mr; k++ {
+			for _, notif := range []string{"res", "err", "ack"} {
+				for _, honors := range []bool{true, false} {
+					cases = append(cases, cse{mr, k, notif, honors, false})
+				}
+			}
+			cases = append(cases, cse{mr, k, "res", true, true})
+		}
+	}
+	return family{name: "c25-parked", run: func(idx int, _ []int) *result {
+		cs := cases[idx%len(cases)]
+		cfg := mkCfg(1, false, time.Second, cs.mr, gating{Send: true, Decode: cs.decode, Hooks: map[string]bool{}})
+		cfg.SendHonorsCtx = cs.honors
+		b := mkBudget(cfg)
+		b.Ack[0], b.Res[0], b.Err[0], b.Travel, b.TravelMs = 1, 1, 1, 2*cs.mr+6, []int{1000}
+		sc := []string{"start:0"}
+		for j := 0; j < cs.k; j++ {
+			sc = append(sc, "rel:do0@send", "travel:1000")
+		}
+		// transmission k is parked in send now
+		sc = append(sc, cs.notif+":0")
+		if cs.decode {
+			sc = append(sc, "travel:1000", "rel:res0@decode")
+		}
+		sc = append(sc, "travel:1000", "rel:do0@send", "travel:1000", "travel:1000")
+		return runScript("c25-parked", idx, cfg, b, sc, probes{})
+	}}, len(cases)
+}
+
 func runC25(c *mon.Ctx) {
 	c.Rule("real rpc.Engine with neo fake clock and harness send function recording (msg id, seq no, encoded body, fake time) of every transmission. " +
 		"(a) scripted grid MaxRetries 1..6 x ack/result position (none, after k-th transmission, issued concurrently with the timer) x failing transmission index x clock step (interval, interval/2), " +
@@ -396,6 +439,7 @@ func runC25(c *mon.Ctx) {
 	runFamilies(c, h, []famRun{
 		{grid, n, 1},
 		{batch, nb, 1},
+		{func() family { f, _ := c25Parked(); return f }(), func() int { _, n := c25Parked(); return n }(), 1},
 		{pctFamily(c, "c25-pct", "C25"), c.N(2000, 70000), 1},
 		{freeFamily(c, "c25-free", "C25"), c.N(300, 20000), workersFree()},
 	})
@@ -416,6 +460,7 @@ func c26Insert() (family, int) {
 		honors    bool
 		dropFail  bool
 		dropGate  bool
+		deadline  bool
 		base      []string
 	}
 	mkBase := func(n int) []string {
@@ -441,14 +486,17 @@ func c26Insert() (family, int) {
 		}
 		for pos := 0; pos <= len(base); pos++ {
 			for _, x := range xs {
-				for v := 0; v < 4; v++ {
-					cases = append(cases, cse{n: n, pos: pos, pos2: -1, x: x, honors: v&1 == 0, dropFail: v&2 != 0, dropGate: x != "close" && v == 3, base: base})
+				for v := 0; v < 8; v++ {
+					if v >= 4 && x == "close" {
+						break // bit 2: the caller's context ends by deadline instead of cancel
+					}
+					cases = append(cases, cse{n: n, pos: pos, pos2: -1, x: x, honors: v&1 == 0, dropFail: v&2 != 0, dropGate: x != "close" && v&3 == 3, deadline: v&4 != 0, base: base})
 				}
 			}
 			if n <= 2 {
 				for pos2 := pos; pos2 <= len(base); pos2++ {
-					cases = append(cases, cse{n: n, pos: pos, pos2: pos2, x: "cancel:0", x2: "close", honors: pos2%2 == 0, base: base},
-						cse{n: n, pos: pos, pos2: pos2, x: "close", x2: "cancel:0", honors: pos2%2 == 1, base: base})
+					cases = append(cases, cse{n: n, pos: pos, pos2: pos2, x: "cancel:0", x2: "close", honors: pos2%2 == 0, deadline: pos%2 == 1, base: base},
+						cse{n: n, pos: pos, pos2: pos2, x: "close", x2: "cancel:0", honors: pos2%2 == 1, deadline: pos%2 == 0, base: base})
 				}
 			}
 		}
@@ -461,6 +509,7 @@ func c26Insert() (family, int) {
 		b := mkBudget(cfg)
 		for i := 0; i < cs.n; i++ {
 			cfg.Calls[i].DropFail = cs.dropFail
+			cfg.Calls[i].EndByDeadline = cs.deadline
 			b.Ack[i], b.Res[i], b.Cancel[i] = 1, 1, 1
 		}
 		b.Close, b.CancelEarly = 1, true
@@ -489,6 +538,44 @@ func c26Insert() (family, int) {
 	}}, len(cases)
 }
 
+// c26ResendEnd: the caller's context ends (cancel or deadline) while a
+// RETRANSMISSION is blocked in send, or right after it was written.
+func c26ResendEnd() (family, int) {
+	type cse struct {
+		deadline, honors, during, acked bool
+		k                               int
+	}
+	var cases []cse
+	for v := 0; v < 16; v++ {
+		for k := 1; k <= 2; k++ {
+			cases = append(cases, cse{v&1 != 0, v&2 != 0, v&4 != 0, v&8 != 0, k})
+		}
+	}
+	return family{name: "c26-resend-end", run: func(idx int, _ []int) *result {
+		cs := cases[idx%len(cases)]
+		cfg := mkCfg(1, true, time.Second, 3, gating{Send: true, Decode: true})
+		cfg.SendHonorsCtx = cs.honors
+		cfg.Calls[0].EndByDeadline = cs.deadline
+		b := mkBudget(cfg)
+		b.Ack[0], b.Res[0], b.Cancel[0], b.Close, b.Travel, b.TravelMs = 1, 1, 1, 1, 8, []int{1000}
+		sc := []string{"start:0", "rel:do0@send"}
+		for j := 1; j < cs.k; j++ {
+			sc = append(sc, "travel:1000", "rel:do0@send")
+		}
+		sc = append(sc, "travel:1000") // retransmission k parked in send
+		if cs.acked {
+			sc = append(sc, "ack:0")
+		}
+		if cs.during {
+			sc = append(sc, "cancel:0", "rel:do0@send")
+		} else {
+			sc = append(sc, "rel:do0@send", "cancel:0")
+		}
+		sc = append(sc, "res:0", "rel:res0@decode")
+		return runScript("c26-resend-end", idx, cfg, b, sc, probes{LateRes: true, PostCloseDo: true})
+	}}, len(cases)
+}
+
 func runC26(c *mon.Ctx) {
 	c.Rule("same harness as C24. (a) base schedule (start, first send returns, ack, result enters decoder, decoder released) for N=1..3 staggered calls with ForceClose / cancel / both inserted at every position, " +
 		"send and decoder gated, send honouring its context or not, drop handler failing or not; (b) DFS enumeration for N=2 over {release send ok/fail, ack, cancel, close, result}; " +
@@ -498,9 +585,14 @@ func runC26(c *mon.Ctx) {
 	c.Assume("the retry-on-new-connection consequence (pool / telegram invoke) is observed by poolmon, not here; goroutine states reported by runtime.Stack are trusted")
 	h := newHarvest(c, "C26")
 	ins, n := c26Insert()
-	runFamilies(c, h, []famRun{{ins, n, 1}})
+	rse, nr := c26ResendEnd()
+	runFamilies(c, h, []famRun{{ins, n, 1}, {rse, nr, 1}})
 	g := gating{Send: true, Decode: true}
-	ecfg := func() worldCfg { return mkCfg(2, true, time.Second, 2, g) }
+	ecfg := func() worldCfg {
+		cfg := mkCfg(2, true, time.Second, 2, g)
+		cfg.Calls[1].EndByDeadline = true // "cancel:1" is an expiring deadline
+		return cfg
+	}
 	eb := mkBudget(ecfg())
 	eb.Ack[0], eb.Ack[1], eb.Cancel[0], eb.Cancel[1], eb.Res[0], eb.Close, eb.SendFail = 1, 1, 1, 1, 1, 1, 1
 	_, ex := runEnum(c, h, "c26-enum2", ecfg, eb, []string{"start:0", "start:1"}, c.N(5, 7), c.N(1500, 60000), probes{PostCloseDo: true})
